@@ -149,8 +149,9 @@ impl Effect for Reverb {
 			self.stereo_width.update(dt * input.len() as f64, info);
 			self.mix.update(dt * input.len() as f64, info);
 
-			let feedback = self.feedback.value() as f32;
-			let damping = self.damping.value() as f32;
+			// outside of 0.0..=1.0 the comb filters are unstable and their state overflows to NaN
+			let feedback = (self.feedback.value() as f32).clamp(0.0, 1.0);
+			let damping = (self.damping.value() as f32).clamp(0.0, 1.0);
 
 			let num_frames = input.len();
 			for (i, frame) in input.iter_mut().enumerate() {
